@@ -35,6 +35,25 @@ type Result struct {
 	Sites       []Site
 	Unseamed    []string
 	Globals     map[string][]string // package dir -> variable names
+	Points      int                 // scheduling points injected (method and exported-function entries of the compile pipeline)
+}
+
+// pointPackages: where scheduling points are injected (the compile pipeline; the VM is stepped through its debug seam).
+var pointPackages = map[string]bool{"": true, "checker": true, "compiler": true, "optimizer": true, "conf": true, "ast": true}
+
+// wantsPoint: every method and every exported function of the pipeline packages; in package ast only the walker
+// (the accessors of ast nodes are called from everywhere and would only multiply equivalent schedules).
+func wantsPoint(rel string, fd *ast.FuncDecl) bool {
+	if fd.Body == nil || len(fd.Body.List) == 0 || !pointPackages[rel] {
+		return false
+	}
+	if rel == "ast" {
+		return fd.Recv != nil && fd.Name.Name == "walk"
+	}
+	if fd.Name.Name == "init" || fd.Name.Name == "String" || fd.Name.Name == "Error" {
+		return false
+	}
+	return fd.Recv != nil || fd.Name.IsExported()
 }
 
 type pkgInfo struct {
@@ -177,6 +196,18 @@ func Generate(repo, outDir string) (*Result, error) {
 				}
 				return p.Name()
 			}
+			for _, d := range f.Decls {
+				if fd, ok := d.(*ast.FuncDecl); ok && wantsPoint(rel, fd) {
+					name := fd.Name.Name
+					if fd.Recv != nil && len(fd.Recv.List) > 0 {
+						rt := string(src[fset.Position(fd.Recv.List[0].Type.Pos()).Offset:fset.Position(fd.Recv.List[0].Type.End()).Offset])
+						name = strings.TrimPrefix(rt, "*") + "." + name
+					}
+					at := fset.Position(fd.Body.Lbrace).Offset + 1
+					edits = append(edits, edit{at, at, fmt.Sprintf("\nverifseam.Point(%q)\n", pi.pkg.Name()+"."+name)})
+					res.Points++
+				}
+			}
 			ast.Inspect(f, func(n ast.Node) bool {
 				switch x := n.(type) {
 				case *ast.RangeStmt:
@@ -296,6 +327,16 @@ var (
 func Reset() {
 	visits = map[string]int{}
 	Log = nil
+}
+
+// PointHook is called at every injected scheduling point (entries of the methods and exported functions of the
+// compile pipeline). The explorer installs it; nil means free running.
+var PointHook func(id string)
+
+func Point(id string) {
+	if h := PointHook; h != nil {
+		h(id)
+	}
 }
 
 func Keys(site string, m interface{}) []reflect.Value {
